@@ -49,6 +49,7 @@ type Inode struct {
 	opens    int
 	freed    bool
 	Gen      uint64 // bumped on every content change (observers)
+	Mtime    int64  // logical modification time (see FS.MtimeGranularity)
 }
 
 // Dentry names an inode inside a directory.  It moves with rename, as in Linux.
@@ -100,6 +101,7 @@ type FS struct {
 	EventsQueued, Coalesced int
 	MaxUserWatches          int // 0 = unlimited
 	MaxQueuedEvents         int // fs.inotify.max_queued_events (0 = unlimited)
+	MtimeGranularity        int // modification times advance once per this many scheduler steps (0 = every step)
 	EventsLost              int // events dropped because a queue was full
 	watchCount              int
 }
@@ -116,8 +118,17 @@ func New() *FS {
 	return fs
 }
 
+// now is the logical time stamp for modification times.
+func (fs *FS) now() int64 {
+	t := int64(fs.step()) + 1
+	if g := int64(fs.MtimeGranularity); g > 1 {
+		t = t / g * g
+	}
+	return t
+}
+
 func (fs *FS) newInode(mode uint32, c Cred) *Inode {
-	ino := &Inode{Ino: fs.nextIno, Mode: mode, UID: c.UID, GID: c.GID, Nlink: 1}
+	ino := &Inode{Ino: fs.nextIno, Mode: mode, UID: c.UID, GID: c.GID, Nlink: 1, Mtime: fs.now()}
 	fs.nextIno++
 	return ino
 }
@@ -390,6 +401,7 @@ func sortedNames(dir *Inode) []string {
 
 // Stat is the subset of struct stat the library can observe.
 type Stat struct {
+	Mtime int64
 	Ino   uint64
 	Mode  uint32
 	Nlink int
@@ -401,7 +413,7 @@ type Stat struct {
 }
 
 func statOf(i *Inode, name string) Stat {
-	st := Stat{Ino: i.Ino, Mode: i.Mode, Nlink: i.Nlink, UID: i.UID, GID: i.GID, Rdev: i.Rdev, Name: name}
+	st := Stat{Mtime: i.Mtime, Ino: i.Ino, Mode: i.Mode, Nlink: i.Nlink, UID: i.UID, GID: i.GID, Rdev: i.Rdev, Name: name}
 	switch {
 	case i.IsReg():
 		st.Size = int64(len(i.Data))
